@@ -6,21 +6,32 @@ use qevent::{
     telemetry::{ExportEvent, QLog, Span},
 };
 
+/// Events per vantage point, each tagged with the ordinal of the trace (= connection object) that emitted it.
 #[derive(Default)]
 pub struct Captured {
-    pub client: Mutex<Vec<Event>>,
-    pub server: Mutex<Vec<Event>>,
+    pub client: Mutex<Vec<(u32, Event)>>,
+    pub server: Mutex<Vec<(u32, Event)>>,
+    pub traces: std::sync::atomic::AtomicU32,
 }
 
 impl Captured {
-    pub fn side(&self, server: bool) -> std::sync::MutexGuard<'_, Vec<Event>> {
+    pub fn side(&self, server: bool) -> std::sync::MutexGuard<'_, Vec<(u32, Event)>> {
         if server { self.server.lock().unwrap() } else { self.client.lock().unwrap() }
+    }
+    /// the events of one vantage point grouped by trace, in emission order
+    pub fn by_trace(&self, server: bool) -> Vec<Vec<Event>> {
+        let g = self.side(server);
+        let mut ids: Vec<u32> = g.iter().map(|(t, _)| *t).collect();
+        ids.sort();
+        ids.dedup();
+        ids.iter().map(|id| g.iter().filter(|(t, _)| t == id).map(|(_, e)| e.clone()).collect()).collect()
     }
 }
 
 pub struct CaptureExporter {
     pub sink: Arc<Captured>,
     pub server: bool,
+    pub trace: u32,
     pub raw: bool,
     /// None = accept all; Some(mask) = accept schemes whose hash bit is set
     pub filter: Option<u64>,
@@ -37,7 +48,7 @@ impl ExportEvent for CaptureExporter {
             return;
         }
         let v = if self.server { &self.sink.server } else { &self.sink.client };
-        v.lock().unwrap().push(event);
+        v.lock().unwrap().push((self.trace, event));
     }
     fn filter_event(&self, scheme: &'static str) -> bool {
         match self.filter {
@@ -64,11 +75,41 @@ impl QLog for CaptureLog {
         let exporter: Arc<dyn ExportEvent> = Arc::new(CaptureExporter {
             sink: self.sink.clone(),
             server,
+            trace: self.sink.traces.fetch_add(1, std::sync::atomic::Ordering::Relaxed),
             raw: self.raw,
             filter: self.filter,
             discard: self.discard,
             on_event: self.on_event.clone(),
         });
         qevent::span!(exporter, group_id = group_id)
+    }
+}
+
+/// In-memory `TelemetryStorage` for the shipped `LegacySeqLogger` (JSON-SEQ text per connection).
+#[derive(Clone, Default)]
+pub struct MemStorage {
+    pub files: Arc<Mutex<Vec<(String, Arc<Mutex<Vec<u8>>>)>>>,
+}
+
+pub struct MemFile(Arc<Mutex<Vec<u8>>>);
+
+impl tokio::io::AsyncWrite for MemFile {
+    fn poll_write(self: std::pin::Pin<&mut Self>, _cx: &mut std::task::Context<'_>, buf: &[u8]) -> std::task::Poll<std::io::Result<usize>> {
+        self.0.lock().unwrap().extend_from_slice(buf);
+        std::task::Poll::Ready(Ok(buf.len()))
+    }
+    fn poll_flush(self: std::pin::Pin<&mut Self>, _cx: &mut std::task::Context<'_>) -> std::task::Poll<std::io::Result<()>> {
+        std::task::Poll::Ready(Ok(()))
+    }
+    fn poll_shutdown(self: std::pin::Pin<&mut Self>, _cx: &mut std::task::Context<'_>) -> std::task::Poll<std::io::Result<()>> {
+        std::task::Poll::Ready(Ok(()))
+    }
+}
+
+impl qevent::telemetry::handy::TelemetryStorage for MemStorage {
+    fn join(&self, file_name: &str) -> impl std::future::Future<Output = impl tokio::io::AsyncWrite + Send + Unpin + 'static> + Send + 'static {
+        let buf = Arc::new(Mutex::new(Vec::new()));
+        self.files.lock().unwrap().push((file_name.to_string(), buf.clone()));
+        async move { MemFile(buf) }
     }
 }
